@@ -1,4 +1,5 @@
 import HeimdallModel.Lemmas.Config
+import HeimdallModel.Lemmas.ConfigLeaf
 import HeimdallModel.Spec.ConfigSchema
 /-!
 # C20 — configuration file and environment variables are equivalent; the environment wins per leaf
@@ -182,6 +183,78 @@ example :
       [([.key c!"mechanisms", .key c!"authenticators", .idx 0, .key c!"id"], "\"a\""),
        ([.key c!"mechanisms", .key c!"authenticators", .idx 1, .key c!"type"], "\"basic_auth\"")]) := by
   decide
+
+/-! ## values: the environment spelling of a value the file can carry -/
+
+/-- The plain spelling of a value in an environment variable yields the same leaf as the file carrying the value,
+    for every typed value and every YAML reading `y` of the spelling that is faithful (the text itself; the integer
+    whose canonical numeral is the text; for a boolean property the boolean the text names).
+    Partial: the full statement `∀ v y, SpellingEquivalent v y` is false on the code as it is, see the two witnesses
+    below (known finding C20-env-value-retyped): what is missing are the readings that print differently from what was
+    written, for string properties. -/
+theorem c20_env_spelling_partial (v : Value) (y : Scalar) (h : faithful v y = true) : SpellingEquivalent v y := by
+  unfold SpellingEquivalent
+  cases y with
+  | null => simp [faithful] at h
+  | float r => simp [faithful] at h
+  | str x =>
+    simp only [faithful, beq_iff_eq] at h
+    subst h
+    cases v with
+    | str s => rfl
+    | text s => rfl
+    | int n => simp [Value.type, Value.fileScalar, Value.spelling, decode, parseCanon_showInt]
+    | bool b => cases b <;> decide
+  | int n =>
+    simp only [faithful, Bool.and_eq_true, beq_iff_eq, bne_iff_ne] at h
+    cases v with
+    | str s => simp [Value.type, Value.fileScalar, Value.spelling, decode] at h ⊢; exact h
+    | int m =>
+      have : n = m := showInt_inj (by simpa [Value.spelling] using h.1.1)
+      subst this; rfl
+    | bool b => simp [Value.type] at h
+    | text s => simp [Value.type] at h
+  | bool b =>
+    simp only [faithful, Bool.and_eq_true, beq_iff_eq, bne_iff_ne] at h
+    cases v with
+    | str s => simp [Value.type] at h
+    | int m => simp [Value.type] at h
+    | text s => simp [Value.type] at h
+    | bool b' =>
+      have : b = b' := by
+        cases b <;> cases b' <;> simp [Value.spelling] at h ⊢
+      subst this; rfl
+
+/-- the hypothesis is satisfiable by the interesting cases: a numeric password read as an integer, a negative number
+    given as text, a boolean, a duration -/
+example : faithful (.str c!"42") (.int 42) = true ∧ faithful (.int (-3)) (.str c!"-3") = true
+    ∧ faithful (.bool true) (.bool true) = true ∧ faithful (.text c!"5s") (.str c!"5s") = true := by
+  have h42 : natDigits 42 = c!"42" := by rw [natDigits]; simp; rw [natDigits]; simp [digitChar]
+  have h3 : showInt (-3) = c!"-3" := by
+    show showInt (Int.negSucc 2) = _
+    simp [showInt]; rw [natDigits]; simp [digitChar]
+  refine ⟨?_, ?_, ?_, ?_⟩
+  · simp [faithful, Value.spelling, Value.type, showInt, h42]
+  · simp [faithful, Value.spelling, h3]
+  · simp [faithful, Value.spelling, Value.type]
+  · simp [faithful, Value.spelling]
+
+/-- the full statement fails: `ID=true` for a string property arrives as `"1"`, ... -/
+theorem c20_env_spelling_fails_bool : ¬ SpellingEquivalent (.str c!"true") (.bool true) := by
+  simp [SpellingEquivalent, Value.type, Value.fileScalar, decode]
+
+/-- ... and `PASSWORD=007` (YAML reads the integer 7) arrives as `"7"` -/
+theorem c20_env_spelling_fails_numeral : ¬ SpellingEquivalent (.str c!"007") (.int 7) := by
+  have h7 : natDigits 7 = c!"7" := by rw [natDigits]; simp [digitChar]
+  simp [SpellingEquivalent, Value.type, Value.fileScalar, decode, showInt, h7]
+
+/-! ## histories: a load is a function of its own file and environment -/
+
+/-- Whatever was loaded before and whatever is loaded afterwards in the same process, the result of a load is
+    `load` of its own defaults, file and environment. -/
+theorem c20_history_independent (pre post : List (Val × Val × Env)) (d f : Val) (env : Env) :
+    (runHistory (pre ++ (d, f, env) :: post))[pre.length]? = some (load d f env) := by
+  simp [runHistory]
 
 /-! ## schema of the file = what the loader supports (over the tables regenerated from the source on every run) -/
 
